@@ -22,7 +22,7 @@ DECIDING = ['derivatives_compared', 'rows_compared', 'pop_output_columns', 'matr
             'two_equation_couplings', 'couplings_with_constant', 'scalar_weight_couplings']
 ASSUMPTIONS = ['W[i, j] couples source unit j to target unit i', 'scalar weight w means w * sum_j source_j for every target']
 CASE_TIMEOUT = 240
-FOCUS = ['dynamic_couplings_share_target', 'conn_delay', 'conn_coupling', 'conn_scalar', 'pop_n1_connected', 'conn_coupling_post_with_delay',
+FOCUS = ['parallel_connectivities', 'dynamic_couplings_share_target', 'conn_delay', 'conn_coupling', 'conn_scalar', 'pop_n1_connected', 'conn_coupling_post_with_delay',
          'two_delayed_conns_same_source', 'coupling_src_post_same_name', 'coupling_shares_target_var',
          'matrix_delay_source_named_k']
 
@@ -184,6 +184,16 @@ def _gen_pop_case(rnd, want, opened, dynamic_only=False):
         keys = [(c['source'], c['target']) for c in conns]
         if len(set(keys)) != len(keys):
             continue
+        if want == 'parallel_connectivities':
+            # a second (plain matrix) Connectivity between the same two population variables as the first one
+            c0 = conns[0]
+            if c0['kind'] != 'matrix' or c0.get('delay'):
+                continue
+            nt_, ns_ = len(c0['W']), len(c0['W'][0])
+            W2 = [[round(vals.new() * rnd.choice([1, -1]), 4) if rnd.random() < 0.7 else 0.0 for _ in range(ns_)] for _ in range(nt_)]
+            W2[0][0] = round(vals.new(), 4)
+            conns.append({'source': c0['source'], 'target': c0['target'], 'kind': 'matrix', 'W': W2})
+            risk.add('parallel_connectivities')
         # one delayed source variable per source operator, and no mixing of delayed / undelayed from one source var (C09 findings)
         dsrc = {}
         for c in conns:
@@ -201,7 +211,7 @@ def _gen_pop_case(rnd, want, opened, dynamic_only=False):
                 risk.add('pop_n1_connected')
             # where the delay acts (on the source before the coupling function, or on the coupled value) only matters when
             # the coupling depends on the post-synaptic variable or the delay is a (non-commuting) kernel
-            if c['kind'] == 'coupling' and c.get('delay') and (c['form'] not in ('src_only', 'two_eq_src') or c.get('spread')):
+            if c['kind'] == 'coupling' and c.get('delay') and (c['form'] not in ('src_only',) or c.get('spread')):      # (src_only: f(0) = 0, the order of delay and coupling is immaterial)
                 risk.add('conn_coupling_post_with_delay')
         tcount = {}
         for c in conns:
